@@ -320,6 +320,9 @@ fn c19_job(entry: &str, p: P, a: &Env, b: &Env, storage_seed: u64) -> Job {
 fn outcome_of(r: &crate::driver::JobResult) -> C19Outcome {
     match &r.body {
         Body::C19 { out } => out.clone(),
+        // building or observing the value did not terminate: nothing to persist (counted like a build panic)
+        Body::Timeout { seconds } => C19Outcome { scenario_panic: Some(format!("did not terminate within {seconds} s")), ..Default::default() },
+        Body::Skipped => C19Outcome { scenario_panic: Some("skipped after a non-terminating run of the same entry".into()), ..Default::default() },
         _ => harness_error("wrong result kind"),
     }
 }
